@@ -1029,7 +1029,11 @@ class MySQLParser(SQLParser):
 
     @_('INTEGER')
     def integer(self, p):
-        return int(p[0])
+        try:
+            return int(p[0])
+        except ValueError:
+            # python limits the number of digits that can be converted
+            raise ParsingException(f'Integer is too long: {p[0][:20]}...')
 
     @_('QUOTE_STRING')
     def quote_string(self, p):
